@@ -12,6 +12,7 @@ import Bourse.Spec.Audit
 import Bourse.Lemmas.Uncrossed
 import Bourse.Lemmas.NoOverflow
 
+import Bourse.Lemmas.EnvInv
 namespace Bourse.Props.C02
 open Bourse
 
@@ -224,5 +225,20 @@ theorem never_crossed_valid (t0 tick : Nat) (ops : List Op) (h : ValidHistory t0
     let b := (Book.new t0 tick true).run ops
     b.bid.orders ≠ [] → b.ask.orders ≠ [] → b.bidAsk.1 < b.bidAsk.2 :=
   never_crossed t0 tick h.tick_pos ops h.ops_valid hno h.noFault
+
+/-- **The same for every asset of every running simulation**: in every state an environment (single-
+or multi-asset) reaches by submissions, queued cancellations / modifications, trading switches and
+steps — whatever the agents submit and whatever permutation the generator produces — every book's
+published views equal the recomputation from that book's own order list. -/
+theorem published_data_equals_resting_orders_in_simulations {s : MEnv × Xoro} (h : s.1.market.Inv)
+    (ops : List MEnv.EOp) (hok : EnvRunOk s ops) (b : Book) (hb : b ∈ (MEnv.runOps s ops).1.market.books)
+    (n : Nat) (hn : ∀ i, i < n → i * b.tick < P32) :
+    let os := b.orders.map (·.order)
+    b.bidAsk = (Views.bestBid os, Views.bestAsk os) ∧
+    b.bidVol = Views.sideVol os .bid ∧ b.askVol = Views.sideVol os .ask ∧
+    b.bidBestVolAndOrders = Views.touch os .bid ∧ b.askBestVolAndOrders = Views.touch os .ask ∧
+    b.bidLevels n = Views.levels os b.tick .bid n ∧ b.askLevels n = Views.levels os b.tick .ask n ∧
+    b.level1 = Views.level1 os ∧ b.level2 n = Views.level2 os b.tick n ∧ b.mid2 = Views.mid2 os :=
+  env_views_correct h ops hok b hb n hn
 
 end Bourse.Props.C02
